@@ -10,6 +10,7 @@ def dispatch (line : String) : String :=
   | some (.atom "c14" :: args) => Driver.C14.handle args
   | some (.atom "c16" :: args) => Driver.C16.handle args
   | some (.atom "struct" :: args) => Driver.Struct.handle args
+  | some (.atom "recgraph" :: args) => Driver.Struct.handleRec args
   | some (.atom "ping" :: _) => "pong"
   | _ => "bad-op"
 
